@@ -13,6 +13,8 @@ use simcore::{Fnv, Rng};
 
 pub const DB: &str = "/sim/db";
 pub const WAL: &str = "/sim/.db";
+pub const DB2: &str = "/sim/db2";
+pub const WAL2: &str = "/sim/.db2";
 
 #[derive(Clone, Debug, Serialize, Deserialize)]
 pub struct Plan {
@@ -26,6 +28,10 @@ pub struct Plan {
     pub open_with: u64,
     /// also crash inside the closing defragmentation
     pub close: bool,
+    /// the database is renamed (to `DB2`) right before this step; crash points inside the rename itself are
+    /// not evaluated (the properties speak of queries and transactions), everything after it is
+    #[serde(default)]
+    pub rename_before: Option<u64>,
     pub steps: Vec<Op>,
 }
 
@@ -64,6 +70,7 @@ pub fn generate(focus: &str, seed: u64, run: u64, tier: Tier) -> Plan {
             Tier::Thorough => 4,
         },
         close: rng.chance(2, 3),
+        rename_before: if rng.chance(1, 6) { Some(rng.below(steps.len() as u64 + 1)) } else { None },
         steps,
     }
 }
@@ -76,11 +83,11 @@ struct Span {
     what: String,
 }
 
-fn open_and_dump(img: &Image, v: Variant) -> Result<Dump, (String, String)> {
+fn open_and_dump(img: &Image, v: Variant, name: &str) -> Result<Dump, (String, String)> {
     let fs = SimFs::from_image(img.clone());
     fs.install();
     let r = catch(|| -> Result<Dump, (String, String)> {
-        let db = AnyDb::open(v, DB).map_err(|e| ("open-failed".to_string(), format!("opening as {v:?} failed: {}", describe(&e))))?;
+        let db = AnyDb::open(v, name).map_err(|e| ("open-failed".to_string(), format!("opening as {v:?} failed: {}", describe(&e))))?;
         let d = with_db!(&db, d => dump(d)).map_err(|e| ("read-failed".to_string(), format!("opened as {v:?} but {e}")))?;
         Ok(d)
     });
@@ -117,6 +124,7 @@ pub fn exec(plan: &Plan, trials: &mut Trials) -> RunReport {
     let mut dumps: Vec<Dump> = vec![];
     let mut spans: Vec<Span> = vec![];
     let mut creation = Image::new();
+    let mut renamed: Option<(usize, usize)> = None;
     let live = catch(|| -> Result<(usize, Vec<simfs::Event>), String> {
         let mut db = AnyDb::open(plan.variant, DB).map_err(|e| format!("create failed: {}", e.description))?;
         creation = fs.image();
@@ -125,6 +133,11 @@ pub fn exec(plan: &Plan, trials: &mut Trials) -> RunReport {
         let mut sh = Shadow::default();
         dumps.push(with_db!(&db, d => dump(d))?);
         for (i, op) in plan.steps.iter().enumerate() {
+            if plan.rename_before == Some(i as u64) {
+                let a = fs.journal_len();
+                with_db!(&mut db, d => d.rename(DB2)).map_err(|e| format!("rename failed: {}", e.description))?;
+                renamed = Some((a, fs.journal_len()));
+            }
             let start = fs.journal_len();
             let _ = with_db!(&mut db, d => step(d, &mut sh, op));
             let end = fs.journal_len();
@@ -153,6 +166,9 @@ pub fn exec(plan: &Plan, trials: &mut Trials) -> RunReport {
     rep.count("fault.short_write", c.faults_short_write);
     rep.count("fault.short_read", c.faults_short_read);
     rep.probes();
+    if renamed.is_some() {
+        rep.count("history.renamed_database", 1);
+    }
     let (_e0, journal) = match live {
         Caught::Ok(Ok(x)) => x,
         Caught::Ok(Err(e)) => {
@@ -194,6 +210,11 @@ pub fn exec(plan: &Plan, trials: &mut Trials) -> RunReport {
         if stride > 1 && k % stride != 0 && k != total {
             continue;
         }
+        let (name, wal_name) = match renamed {
+            Some((a, b)) if k > a && k < b => continue,
+            Some((_, b)) if k >= b => (DB2, WAL2),
+            _ => (DB, WAL),
+        };
         // the span this crash point lies in (strictly inside) or the boundary state
         let (pre, post, what) = match spans.get(si) {
             Some(s) if s.start < k && k < s.end => (s.pre, s.post, format!("inside {}", s.what)),
@@ -215,12 +236,12 @@ pub fn exec(plan: &Plan, trials: &mut Trials) -> RunReport {
             if let Some(s) = spans.iter().find(|s| s.start <= k && k < s.end) {
                 torn_pre_post = (s.pre, s.post);
             }
-            variants.push((t, format!("crash after FS event {k}/{total} + {cut}/{} bytes of the next {} write", data.len(), if journal[k].path == WAL { "log" } else { "data" })));
-            rep.count(if journal[k].path == WAL { "fault.torn_log_write" } else { "fault.torn_data_write" }, 1);
+            variants.push((t, format!("crash after FS event {k}/{total} + {cut}/{} bytes of the next {} write", data.len(), if journal[k].path == wal_name { "log" } else { "data" })));
+            rep.count(if journal[k].path == wal_name { "fault.torn_log_write" } else { "fault.torn_data_write" }, 1);
         }
         for (vi, (snap, desc)) in variants.iter().enumerate() {
             let (pre, post) = if vi == 0 { (pre, post) } else { torn_pre_post };
-            let wal_live = snap.get(WAL).map(|w| !w.is_empty()).unwrap_or(false);
+            let wal_live = snap.get(wal_name).map(|w| !w.is_empty()).unwrap_or(false);
             for v in &others {
                 let Some(trial) = trials.begin() else { continue };
                 rep.evals += 1;
@@ -228,7 +249,7 @@ pub fn exec(plan: &Plan, trials: &mut Trials) -> RunReport {
                 if wal_live {
                     rep.nontrivial += 1;
                 }
-                match open_and_dump(snap, *v) {
+                match open_and_dump(snap, *v, name) {
                     Ok(d) => {
                         if d != dumps[pre] && d != dumps[post] && focus == "C03" && !first_viol {
                             let dd = dumps[pre].diff(&d, "state before", "reopened");
